@@ -2,5 +2,5 @@
 (* Five objects: 1 and 2 share a custom name, 3 has its own, 4 and 5 are two instances of one type without a   *)
 (* custom name (same default name).  Every registration / lookup sequence up to MaxOps is explored and exported. *)
 EXTENDS Registry
-NameOfDef == [o \in {1, 2, 3, 4, 5} |-> CASE o \in {1, 2} -> "shared" [] o = 3 -> "own" [] OTHER -> "plain"]
+NameOfDef == [o \in {1, 2, 3, 4, 5, 6, 7} |-> CASE o \in {1, 2} -> "shared" [] o = 3 -> "own" [] o \in {6, 7} -> "zname" [] OTHER -> "plain"]
 =============================================================================
